@@ -43,6 +43,10 @@ def handle (line : String) : String :=
       match sumOneShot key msg with
       | none => "panic"
       | some t => if t == tagHorner key msg then toHex t else "model-spec-mismatch"
+    else if o.cmd == "kat" then   -- published vector: the model must reproduce the published tag
+      match o.hex? "tag", sumOneShot key msg with
+      | some tag, some t => if t == tag ∧ tagSpec key msg == tag then "kat-ok" else "kat-mismatch"
+      | _, _ => "bad-op"
     else if o.cmd == "verify" then
       match o.hex? "tag" with
       | some tag =>
